@@ -368,11 +368,36 @@ fn guard(ctx: &Ctx, c: &Case) -> Outcome {
     }
 }
 
+/// one writer, two subscribers, one key: every schedule with at most two forced switches
+fn bounded_family(len: usize) -> Vec<Case> {
+    let sub_progs: Vec<Vec<S>> = vec![
+        vec![S::Watch { k: 0 }, S::UnwatchAll],
+        vec![S::Watch { k: 0 }, S::Unwatch { k: 0 }],
+        vec![S::Watch { k: 0 }, S::Disconnect],
+        vec![S::UnwatchAll],
+        vec![S::Watch { k: 1 }, S::Disconnect],
+    ];
+    let writer_progs: Vec<Vec<W>> = vec![vec![W::Set { k: 0 }], vec![W::Set { k: 0 }, W::Remove { k: 0 }], vec![W::SetSafeFresh { k: 0 }, W::Set { k: 0 }]];
+    let scheds = sched::bounded_schedules(len, 3);
+    let mut out = vec![];
+    for sp in sub_progs.iter() {
+        for wp in writer_progs.iter() {
+            for s in scheds.iter() {
+                out.push(Case { writers: vec![wp.clone()], subs: vec![vec![S::Watch { k: 0 }], sp.clone()], schedule: s.clone() });
+            }
+        }
+    }
+    out
+}
+
 pub fn run(ctx: &Ctx, rep: &mut Report) {
     crate::interpose::virtual_clock(true);
     let n = ctx.amount(16_000, 300_000);
     explore(ctx, rep, "schedules", n, case_strategy(), |c| guard(ctx, c));
-
+    if rep.failures.is_empty() {
+        let len = if ctx.quick() { 12 } else { 24 };
+        crate::report::enumerate(ctx, rep, "one-writer-two-subscribers-all-schedules-with-at-most-2-forced-switches", bounded_family(len).into_iter(), |c| guard(ctx, c));
+    }
 }
 
 pub fn replay(ctx: &Ctx, _engine: &str, case: &J) -> Result<Option<(String, String)>, String> {
